@@ -65,7 +65,8 @@ def imported_callables(model):
     return out
 
 
-def run(model, entry='minify', args=None, kwargs=None, tainted=False, preserved=(), shebang=None, source='SOURCE', parse_raises=None, fresh_modules=False, real_shebang=False):
+def run(model, entry='minify', args=None, kwargs=None, tainted=False, preserved=(), shebang=None, source='SOURCE', parse_raises=None, fresh_modules=False, real_shebang=False,
+        printed='MINIFIED'):
     """fresh_modules: every transformer stage (and remove_posargs) answers with a *new* module object, so that a stage that is handed a stale
     tree (result of an earlier stage dropped) is visible in the trace as ('stale', name)."""
     trace = []
@@ -130,7 +131,7 @@ def run(model, entry='minify', args=None, kwargs=None, tainted=False, preserved=
     def h_unparse(I, e, a, kw, env):
         note_module('unparse', a)
         trace.append(('call', 'unparse', tuple(a), dict(kw)))
-        return 'MINIFIED'
+        return printed
 
     def h_shebang(I, e, a, kw, env):
         trace.append(('call', '_find_shebang', tuple(a), dict(kw)))
